@@ -100,6 +100,76 @@ def zoo_oracle(rng, n):
     return fails, cnt
 
 
+def any_module_oracle(rng, n):
+    """SMART / DeepARTMAP over EVERY elementary module class as the level model, 2..4 levels, float data: the tree
+    clauses on the implementation after each training call (fit or partial_fit batches, all modes), then predict"""
+    import contextlib, io
+    import artlib
+    import kernfam
+    fails, cnt = [], 0
+    stats = {}
+    for _ in range(n):
+        kind = rng.choice(kernfam.KINDS)
+        d = rng.choice([1, 2]) if kind in ("Bayes", "Quad") else rng.choice([1, 2, 3])
+        nl = rng.choice([2, 3, 4])
+        p = kernfam.gen_params(rng, kind, d)
+        if kind == "Bayes":
+            rhos = sorted(rng.sample([1e-4, 1e-3, 1e-2, 0.1, 0.5, 5.0], nl), reverse=True)      # inverted test: the ladder decreases
+        else:
+            rhos = sorted(rng.sample([0.0, 0.2, 0.4, 0.6, 0.8, 0.9], nl))
+        if kind == "ART1" and p["L"] == 1.0:
+            p["L"] = 2.0
+        if kind in ("Fuzzy", "Hyper", "Ellip") and p["alpha"] == 0.0:
+            p["alpha"] = 1e-3
+        base = {k: v for k, v in p.items() if k != "rho"}
+        cls = type(kernfam.make(kind, p))
+        which = rng.choice(["SMART", "SMART", "DeepUnsup", "DeepSup"])
+        X = kernfam.gen_data(rng, kind, rng.randrange(4, 14), d)
+        mode = rng.choice(B.MODES)
+        eps = rng.choice([0.0, 1e-10, 1e-3])
+        y = None
+        try:
+            with contextlib.redirect_stdout(io.StringIO()):
+                if which == "SMART":
+                    est = artlib.SMART(cls, rhos, base)
+                else:
+                    est = artlib.DeepARTMAP([kernfam.make(kind, dict(base, rho=r)) for r in rhos])
+        except Exception as e:
+            fails.append({"signature": f"{which}/construct", "text": f"{which}({kind}, rho ladder {rhos}) cannot be constructed: {type(e).__name__}: {str(e)[:80]}",
+                          "replay": {"estimator": which, "module": kind, "rhos": rhos}})
+            continue
+        if which == "DeepSup":
+            y = np.array([rng.randrange(rng.choice([1, 2, 3])) for _ in range(len(X))])
+        rep = {"estimator": which, "module": kind, "params": {k: (np.asarray(v).tolist() if isinstance(v, np.ndarray) else v) for k, v in base.items()},
+               "rhos": rhos, "mode": mode, "eps": eps, "X": X.tolist(), "y": None if y is None else y.tolist()}
+        nb = rng.choice([1, 1, 2, 3])
+        cuts = sorted(rng.sample(range(1, len(X)), nb - 1)) if nb > 1 else []
+        parts = [list(range(a, b)) for a, b in zip([0] + cuts, cuts + [len(X)])]
+        rep["batches"] = [len(q) for q in parts]
+        rep["how"] = "fit" if nb == 1 else "partial_fit per batch"
+        ok = True
+        for bi, ix in enumerate(parts):
+            Xb = X[ix]
+            arg = Xb if which == "SMART" else [Xb] * nl
+            try:
+                with np.errstate(all="ignore"):
+                    op = est.fit if nb == 1 else est.partial_fit
+                    if which == "SMART":
+                        op(arg, match_tracking=mode, epsilon=eps)
+                    else:
+                        op(arg, None if y is None else y[ix], match_tracking=mode, epsilon=eps)
+            except Exception:
+                ok = False        # totality is C04's business
+                break
+            fails.extend(tree_oracle(which, est, dict(rep, after_batch=bi)))
+        if ok:
+            cnt += 1
+            stats[kind] = stats.get(kind, 0) + 1
+            q = [rng.randrange(len(X)) for _ in range(4)]
+            fails.extend(pred_oracle(which, est, X[q] if which == "SMART" else [X[q]] * nl, dict(rep, query_rows=q)))
+    return fails, cnt, stats
+
+
 def main():
     tier = sys.argv[1] if len(sys.argv) > 1 else "quick"
     seed = C.seed_from_env()
@@ -127,6 +197,8 @@ def main():
         v.notes.append("coq shard failed: " + b[-600:])
     zf, zn = zoo_oracle(C.make_rng(seed, "C12-zoo"), 150 if tier == "quick" else 1500)
     fails.extend(zf)
+    af, an, astats = any_module_oracle(C.make_rng(seed, "C12-any"), 200 if tier == "quick" else 2000)
+    fails.extend(af)
 
     def extended():
         f2, _ = zoo_oracle(C.make_rng(seed, "C12-ext"), 1500)
@@ -138,7 +210,7 @@ def main():
                 "5 modes, fit / partial_fit batchings / re-fit, then predict; plus unsupervised DeepARTMAP and SMART histories on the implementation; "
                 "non-trivial = distinct case whose finest level has >= 2 categories",
         "traces_validated_against_impl": sum(1 for x in codes if x == 0),
-        "implementation_only_histories": zn, "distribution": stats, "samples": summ[:1]})
+        "implementation_only_histories": zn, "every_module_class_histories": an, "every_module_class_distribution": astats, "distribution": stats, "samples": summ[:1]})
     v.assumptions = ["level models are Fuzzy ART in the correspondence; the theorems are kernel-abstract",
                      "unsupervised mode and SMART are tied to the theorems through the ARTMAP correspondence of C09 and the implementation-side oracle"]
     sys.exit(v.finish())
